@@ -194,7 +194,11 @@ namespace igris
 
             if (it == storage.end())
             {
-                return T();
+                // nothing can be inserted into a const map: refer to a
+                // value-initialised T that outlives the call (this used to
+                // return a reference to a temporary)
+                static const T none = T();
+                return none;
             }
 
             return it->second;
